@@ -3,14 +3,14 @@
 # applies /verif/seeded/<name>/patch.diff to /repo (never committed), runs the quick checks, undoes it
 name=$1; shift
 SR=${SEEDREPO:-/tmp/seedrepo}; cd $SR || exit 1
-if [ -n "$(git status --short)" ]; then echo "seed worktree not clean"; exit 1; fi
+git reset -q --hard
 git checkout -q --detach $(git -C /repo rev-parse HEAD)
-git apply /verif/seeded/$name/patch.diff 2>/dev/null || git apply -3 /verif/seeded/$name/patch.diff 2>/dev/null || { echo "RESULT $name PATCH-DOES-NOT-APPLY"; git checkout -q -- . ; git reset -q; exit 0; }
+git apply /verif/seeded/$name/patch.diff 2>/dev/null || git apply -3 /verif/seeded/$name/patch.diff 2>/dev/null || { echo "RESULT $name PATCH-DOES-NOT-APPLY"; git reset -q --hard; exit 0; }
 git reset -q
 for c in "$@"; do
   out=$(cd /verif && VERIF_REPO=$SR VERIF_STOP_ON_VIOLATION=1 VERIF_EVIDENCE_SKIP=1 timeout 3000 ./check $c --tier quick 2>&1 | grep -v "^KNOWN-FINDING\|^  ")
   v=$(echo "$out" | grep -c "^VIOLATION")
   echo "RESULT $name check=$c violations_lines=$v $(echo "$out" | tail -1 | cut -c1-200)"
 done
-git checkout -q -- .
+git reset -q --hard
 git status --short | head -3
